@@ -657,6 +657,16 @@ def cmdKangPipe : P String := do
     return s!"ok {r.P} | " ++ fmtFloats ff ++ " | " ++ fmtFloats r.e0 ++ " | " ++ fmtNats r.bin0 ++ " | " ++
       fmtFloats od ++ " | " ++ fmtFloats r.response ++ s!" | {r.directBin} " ++ hexOfFloat r.directVal ++ " | " ++ full
 
+/-- `kangffarr sc[3] rc[3] ns[3] nr[3] size[3]` → `ok value` (one entry of `patch2patch_ff_kang`) -/
+def cmdKangFFArr : P String := do
+  let a ← flts 15
+  return "ok " ++ hexOfFloat (kangFFArr (vec3At a 0) (vec3At a 1) (vec3At a 2) (vec3At a 3) (vec3At a 4) 1e-5 1e-12)
+
+/-- `kangrecvf normal[3] center[3] recv[3] m` → `ok value` (equation 20 weight) -/
+def cmdKangRecvF : P String := do
+  let a ← flts 9; let m ← flt
+  return "ok " ++ hexOfFloat (kangRecvFactor (vec3At a 0) (vec3At a 1) (vec3At a 2) m)
+
 def dispatch (cmd : String) : P String :=
   match cmd with
   | "exchange" => cmdExchange
@@ -673,6 +683,8 @@ def dispatch (cmd : String) : P String :=
   | "brdfscat" => cmdBrdfScat
   | "frame" => cmdFrame
   | "kangff" => cmdKangFF
+  | "kangffarr" => cmdKangFFArr
+  | "kangrecvf" => cmdKangRecvF
   | "metrics" => cmdMetrics
   | "ptsol" => cmdPtSol
   | "polyinfo" => cmdPolyInfo
